@@ -56,6 +56,9 @@ def pre_build(ctx):
 
 
 # ------------------------------------------------------------------ cases
+ALL_F32 = 'all-rows-float32'
+
+
 def gen_cases(rng, tier):
     cases = []
     bos = ['native', 'little', 'big']
@@ -117,6 +120,32 @@ def gen_cases(rng, tier):
         cases.append(S.mk_case(rng, [S.gen_call(rng, kd, n=rng.choice([0, 2, 11])) for kd in kinds], tags=['repeat']))
     for nb in ([1], [2, 3], [4, 1, 2], [1, 1, 1, 1], [7, 3, 2, 5]):
         cases.append(S.mk_case(rng, [S.gen_dnd_call(rng, nbins=nb)], tags=['dnd-shape']))
+    # 7. dtype of the supplied numbers: every numeric field of the run records (efix scalar / per detector, en 1-d / 2-d in
+    #    either dim order, the five angles), of the source frequency and of the histogram metadata (img_scales, img_range,
+    #    offsets; int32 n_bins / dax) as float64 / float32 / int32 / int64, uniformly and mixed, in convertible units
+    k = 0
+    for dt in S.NUM_DTYPES + ['mixed']:
+        for en2d in (False, True):
+            for n_runs in ((1, 3, 20) if tier == 'quick' else (1, 2, 3, 5, 20)):
+                k += 1
+                pc = S.gen_pix_call(rng, rng.choice([2, 5]), n_runs=n_runs, convert=False, en2d=en2d, dtypes=dt)
+                if n_runs >= 3:        # make sure both a scalar and a per-detector efix and both modes occur
+                    pc['experiments'][0] = S.gen_experiment(rng, pc['experiments'][0]['run_id'], indirect=True, en2d=en2d, dtypes=dt)
+                    pc['experiments'][1] = S.gen_experiment(rng, pc['experiments'][1]['run_id'], indirect=False, dtypes=dt)
+                calls = [pc] + [S.gen_call(rng, kd, dtypes=dt) for kd in rng.sample(['inst', 'samp', 'dnd', 'det'], rng.randrange(0, 5))]
+                rng.shuffle(calls)
+                cases.append(S.mk_case(rng, calls, byteorder=bos[k % 3], sink=sinks[k % 3], chunk=rng.choice([None, 1, 3]),
+                                       tags=['dtypes', 'dtype:' + dt]))
+    for dt in S.NUM_DTYPES[1:]:
+        cases.append(S.mk_case(rng, [S.gen_dnd_call(rng, dtypes=dt), S.gen_inst_call(rng, dtypes=dt)], tags=['dtypes', 'dtype:' + dt]))
+    # 8. dtype of the pixel rows: float32 momenta / energies (documented unit), int32 / int64 / float32 index rows;
+    #    all nine rows float32 (pixels taken over from an existing SQW file, which stores every row as float32)
+    for n, chunk in ((1, None), (9, 2), (10, 9), (64, 8192), (65, 64), (1000, 1)):
+        cases.append(S.mk_case(rng, [S.gen_pix_call(rng, n, convert=rng.random() < 0.5, row_dtypes='narrow'), S.gen_dnd_call(rng)],
+                               chunk=chunk, tags=['row-dtypes']))
+    for n, chunk in ((3, None), (20, 7)):
+        cases.append(S.mk_case(rng, [S.gen_pix_call(rng, n, row_dtypes='all-f32', dtypes='float64')], chunk=chunk,
+                               sink='bytesio' if n == 3 else 'file', tags=['row-dtypes', ALL_F32]))
     if tier == 'thorough':
         for seq in S.all_sequences():
             for bo in bos:
@@ -167,6 +196,9 @@ def correspondence(ctx):
     for cid, why in fails.items():
         for part in why.split('+'):
             key = S.norm_reason(part)
+            if ALL_F32 in cases[cid]['tags']:
+                # a separate input class with its own keys: a failure here never stands for (or hides) one of another class
+                key = ALL_F32 + ':' + key
             if key not in by_key or S.case_size(cases[cid]) < S.case_size(cases[by_key[key][0]]):
                 by_key[key] = (cid, why)
     for key, (cid, why) in sorted(by_key.items()):
@@ -199,33 +231,98 @@ def correspondence(ctx):
     })
 
 
-def search(ctx, broken):
-    """an obligation broke: evaluate the property's own statement (table extents tile the file to EOF, names independent of
-    the call order) on files written by the implementation, no model involved"""
-    rng = random.Random(ctx.seed + 12)
+def search_cases(rng, broken):
+    """inputs for the direct evaluation of the property statement: the pixel-count x chunk grid, every ordering of >= 4
+    builder calls, and every dtype class of the supplied numbers (run records, source, histogram metadata, pixel rows);
+    the classes that exercise a file named in a broken `exercise:` obligation come first and are drawn more often"""
+    names = ' '.join(broken or [])
+    models = '_models.py' in names or '_ir.py' in names or '_read_write.py' in names or not names
     cases = []
     for n in (1, 2, 9, 10, 11, 20, 100, 10000):
         for chunk in (1, 2, 3, 9, 10, None):
             cases.append(S.mk_case(rng, [S.gen_pix_call(rng, n, convert=False, n_runs=1)], sink='bytesio', chunk=chunk, tags=['search']))
-    seqs = [s for s in S.all_sequences() if len(s) >= 4]
-    for seq in seqs:
+    for seq in [s for s in S.all_sequences() if len(s) >= 4]:
         cases.append(S.mk_case(rng, [S.gen_call(rng, k, n=2) for k in seq], sink='bytesio', chunk=None, tags=['search-order']))
+    for rep in range(3 if models else 1):
+        for dt in S.NUM_DTYPES + ['mixed']:
+            for en2d in (False, True):
+                for n_runs in (1, 3, 20):
+                    pc = S.gen_pix_call(rng, 3, n_runs=n_runs, convert=False, en2d=en2d, dtypes=dt)
+                    if n_runs >= 3:
+                        pc['experiments'][0] = S.gen_experiment(rng, pc['experiments'][0]['run_id'], indirect=True, en2d=en2d, dtypes=dt)
+                        pc['experiments'][1] = S.gen_experiment(rng, pc['experiments'][1]['run_id'], indirect=False, dtypes=dt)
+                    calls = [pc] + [S.gen_call(rng, kd, dtypes=dt) for kd in ('inst', 'samp', 'dnd', 'det') if rng.random() < 0.6]
+                    rng.shuffle(calls)
+                    cases.append(S.mk_case(rng, calls, chunk=rng.choice([None, 1, 2]), tags=['search-dtypes', 'dtype:' + dt]))
+    for n, chunk in ((1, None), (9, 2), (20, 3), (64, 8192)):
+        cases.append(S.mk_case(rng, [S.gen_pix_call(rng, n, convert=n % 2 == 0, row_dtypes='narrow')], chunk=chunk, tags=['search-rows']))
+    for L in (0, 1, 256):
+        pc = S.gen_pix_call(rng, 2, n_runs=2)
+        pc['experiments'][0]['filename'] = S.ascii_string(rng, L)
+        inst = S.gen_inst_call(rng)
+        inst['name'] = S.ascii_string(rng, L)
+        cases.append(S.mk_case(rng, [pc, inst, S.gen_samp_call(rng), S.gen_dnd_call(rng)], title=S.ascii_string(rng, L), tags=['search-strings']))
     for i, c in enumerate(cases):
         c['id'] = i
+    return cases
+
+
+def statement_problems(c, r):
+    """the property statement on one produced file: [(key, text)] — header / re-opened byte order, table once, extents
+    tile the file to EOF, every extent holds a block of the declared type that decodes completely within it"""
+    st = S.py_structure(bytes.fromhex(r['file_hex']))
+    out = []
+    for p in st['problems']:
+        if 'last extent ends' in p:
+            key = 'format:extent:last-extent-ends-beyond-end-of-file'
+        elif p.startswith('block '):
+            key = 'format:block:object-does-not-decode-within-extent'
+        else:
+            key = 'structure:' + p.split(' ')[0]
+        out.append((key, p))
+    want = c['byteorder'] if c['byteorder'] != 'native' else r.get('native')
+    if st['byteorder'] != want:
+        out.append(('byteorder-not-recognised', f'written as {want}, the first length field reads as {st["byteorder"]}'))
+    info = r.get('reader', {}).get('info')
+    if info is None:
+        out.append(('reader-open-failed', str(r.get('reader', {}).get('open_error'))))
+    else:
+        if info['byteorder'] != want:
+            out.append(('reader-byteorder', f'written as {want}, re-opened as {info["byteorder"]}'))
+        if info['prog_name'] != 'horace' or info['prog_version_bits'] != 0x4010000000000000:
+            out.append(('reader-file-header', f'{info["prog_name"]} {info["prog_version_bits"]:#x}'))
+        if [tuple(n) for n in info['block_names']] != [tuple(d['name']) for d in st['descs']]:
+            out.append(('reader-block-names', f'{info["block_names"]} vs table {[d["name"] for d in st["descs"]]}'))
+    return st, out
+
+
+def search(ctx, broken):
+    """an obligation broke: evaluate the property's own statement (header, byte order, table lists each block once, extents
+    tile the file to EOF, each extent decodes completely as a block of its declared type, names independent of the call
+    order) on files written by the implementation, no model involved"""
+    rng = random.Random(ctx.seed + 12)
+    cases = search_cases(rng, broken)
     results = S.run_harness(ctx, cases)
     found = []
     names_by_set = {}
-    for c, r in sorted(zip(cases, results), key=lambda cr: S.case_size(cr[0])):
+    reported = set()
+    for c, r in sorted(zip(cases, results), key=lambda cr: (S.case_size(cr[0]), len(json.dumps(cr[0])))):
         if 'error' in r:
+            key = 'create-raises:' + r['error']['type']
+            if key not in reported:
+                reported.add(key)
+                ctx.violation(key, f'SqwBuilder raised {r["error"]["type"]}: {r["error"]["msg"]} on {S.describe(c)}',
+                              {'case': c, 'error': r['error']})
+                found.append(c)
             continue
-        st = S.py_structure(bytes.fromhex(r['file_hex']))
-        if st['problems']:
-            key = 'format:extent:last-extent-ends-beyond-end-of-file' if any('last extent ends' in p for p in st['problems']) \
-                else 'structure:' + st['problems'][0].split(' ')[0]
-            ctx.violation(key, f'file written for {S.describe(c)}: {st["problems"]}',
+        st, probs = statement_problems(c, r)
+        for key, text in probs:
+            if key in reported:
+                continue
+            reported.add(key)
+            ctx.violation(key, f'file written for {S.describe(c)}: {text} (all: {[t for _, t in probs][:4]})',
                           {'case': c, 'structure': st, 'file_size': r['size']})
             found.append(c)
-            break
     for c, r in zip(cases, results):
         if 'error' in r or 'search-order' not in c['tags']:
             continue
@@ -238,6 +335,9 @@ def search(ctx, broken):
             found.append(c)
             break
         names_by_set.setdefault(k, (names, [cl['kind'] for cl in c['calls']]))
+    ctx.coverage['search'] = {'files': len(cases), 'per_tag': {t: sum(1 for c in cases if t in c['tags']) for t in
+                                                              ('search', 'search-order', 'search-dtypes', 'search-rows', 'search-strings')},
+                              'problem_keys': sorted(reported)}
     return found
 
 
